@@ -58,7 +58,6 @@ theorem C06_blocks_serial {fixed atomic : Bool} {s : S} (h : Reach fixed atomic 
   have := serial_inv h
   unfold Serial at this
   rw [this]
-  congr 1
   cases s.cur <;> rfl
 
 theorem serial_next (ps : List Ev) (c : Option Ev) :
@@ -104,7 +103,7 @@ theorem C06_exactly_once_in_order {fixed atomic : Bool} {s : S} (h : Reach fixed
 theorem C06_count {fixed atomic : Bool} {s : S} (h : Reach fixed atomic s) (e : Ev) :
     s.processed.count e + s.cur.toList.count e + s.queue.count e = s.history.count e := by
   rw [← (fifo_inv h).2.2]
-  simp [List.count_append]
+  simp [List.count_append, Nat.add_assoc]
 
 /-- Each sender's events are processed in the order that sender put them (restriction of the FIFO
 equation to the events of one sender `i`); the processed events are a prefix of the history. -/
@@ -150,9 +149,9 @@ theorem C06_nonblocking {fixed atomic : Bool} (s : S) (i : Nat) (hi : s.pc i ≠
   | check =>
     cases hq : s.queue with
     | nil =>
-      cases ha : atomic
-      · exact ⟨_, .empty s i hp hq ha⟩
-      · exact ⟨_, .emptyRelease s i hp hq ha⟩
+      cases atomic
+      · exact ⟨_, .empty s i hp hq rfl⟩
+      · exact ⟨_, .emptyRelease s i hp hq rfl⟩
     | cons e q => exact ⟨_, .pop s i e q hp hq⟩
   | processing e => exact ⟨_, .done s i e hp⟩
   | exiting => exact ⟨_, .release s i hp⟩
